@@ -179,3 +179,8 @@ pub mod pq {
 pub mod queue {
     pub use crate::channel::verif_queue::*;
 }
+
+/// Façade over the executor's task handles (V1).
+pub mod task {
+    pub use crate::executor::verif_task::*;
+}
